@@ -176,6 +176,10 @@ class YowNoiseLayer(YowLayer):
         :rtype:
         """
         data = bytes(data) if type(data) is not bytes else data
+        # refuse what cannot be framed before it is encrypted: once the cipher counter is spent on a frame that is
+        # never written, the peer cannot decrypt anything that follows (16 bytes = AES-GCM tag)
+        if len(data) + 16 >= 16777216:
+            raise ValueError("data too large to write; length=%d" % len(data))
         self._wa_noiseprotocol.send(data)
 
     def _flush_incoming_buffer(self, blocking=True):
